@@ -365,6 +365,42 @@ def census(res, ctx, rng):
         res.count('census_codes_nested', len(todo[b:b + 60]))
 
 
+def enclosed_lookups(res, ctx, rng):
+    """A path call whose lookup happens INSIDE a nested START..END window of another class (a page fault taken while the
+    path is resolved, a Mach trap, a dyld timing window ...): every decodable code that can open a window, once.  With
+    the BSD filters the nested window is not read at all; the call still reads as in the unfiltered run."""
+    from pykdebugparser.pykdebugparser import PyKdebugParser
+    inv = H.inventory()
+    n2i = ev.name2ids()
+    others = [n for n in inv['decodable'] if (n2i[n][0] >> 24) not in (3, 4, 7) and n not in domain.TEXT_PAYLOAD]
+    mine = [n for i, n in enumerate(others) if ctx.mine(i)]
+    for b in range(0, len(mine), 25):
+        prog = []
+        for x in mine[b:b + 25]:
+            call = rng.choice(('BSC_open', 'BSC_stat64', 'BSC_access'))
+            nested = [H.A(x, H.START, domain.gen_words(rng, x, 'S'))] + H.lookup(rng.getrandbits(40), rng.choice(H.PATHS[1:6])) + \
+                [H.A(x, H.END, domain.gen_words(rng, x, 'E'))]
+            prog += H.gen_syscall(rng, call, nested, error=0)
+        if not prog:
+            continue
+        events = H.materialize(H.on_thread(11, prog), t0=0x100000001)
+        entries = [(11, 100, b'proc0', b'')]
+        dump = {'data': wire.v2_file(entries, 8, gen.events_to_records(events)), 'events': events, 'entries': entries,
+                'static_map': True}
+        try:
+            unfiltered = [key(t) for t in PyKdebugParser().traces(io.BytesIO(dump['data']))]
+        except Exception as x:
+            res.violation(f'c13-raises-{core.exc_name(x)}', f'lookups enclosed in nested windows: {x!r}', {'file': dump['data']})
+            return
+        for cfg in ({'tid': None, 'classes': [4], 'subs': [], 'process': None},
+                    {'tid': None, 'classes': [], 'subs': [0x040c], 'process': None}):
+            before = len(res.violations)
+            check(res, rng, dump, cfg, unfiltered, None)
+            if len(res.violations) > before:
+                return
+        res.count('lookups_enclosed_in_nested_windows', len(mine[b:b + 25]))
+
+
 def tables_in_turn(res, rng, dump, unfiltered):
     """One front-end object, the SAME filter values, requests made with different code tables in turn (a table that lacks
     the lookup / string codes, the bundled one by default, the bundled one under other ids): every request selects and
@@ -499,6 +535,7 @@ def run(ctx):
             tables_in_turn(res, rng, dump, unfiltered)
         prev = dump
     census(res, ctx, rng)
+    enclosed_lookups(res, ctx, rng)
     wide_nesting(res, ctx, rng)
     if ctx.shard == 0:
         for n in ctx.pick((2600,), (2600, 12000)):
@@ -522,6 +559,7 @@ def run(ctx):
     res.require('settings_edited_in_place', 5)
     res.require('census_codes_nested', 2500)
     res.require('wide_nesting_dumps', 4)
+    res.require('lookups_enclosed_in_nested_windows', 50)
     res.require('requests_with_tables_in_turn', 50)
     res.require('cli_requests_compared', 20)
     res.require('long_capture_traces_selected', 100)
